@@ -37,7 +37,7 @@ META = {
             "by inserting 1-3 symbols (offset changes mid-stream, also back to back), TS-like repetitions at the same offset; "
             "30% of runs with invalid-word gaps (also inside a straddling pattern)",
 }
-TIERS = {"quick": {"runs": 3000, "wall": 70}, "thorough": {"runs": 60000, "wall": 900}}
+TIERS = {"quick": {"runs": 9000, "wall": 70}, "thorough": {"runs": 60000, "wall": 900}}
 
 PATTERNS = {
     "word": [[(usb3.COM, 1)] * 4],
